@@ -222,28 +222,88 @@ def search_skeleton(ctx, F, ty, rule, lin):
     ctx.check(ok, rule, 'recursion-uses-branch-copies', b,
               good='the recursive call continues with this branch\'s working copies',
               bad='%s::serialize does not recurse on the branch\'s own working copies' % short)
-    if lin:
-        # the two real-time tests are structurally identical closures
-        anyc = [c for c in b.calls_to('Iterator::any') if c.bb in body]
-        cls = []
-        for c in anyc:
+    # real-time precedence tests: boolean tests in the iteration whose TRUE edge prunes the branch
+    rt = []
+    for c in b.calls:
+        if c.bb not in body or b.locals[c.dest['l']]['ty'] != 'bool' or c.dest['p']:
+            continue
+        if c.is_('VecDeque::is_empty', 'BTreeMap::contains_key', 'SequentialSpec::is_valid_step', 'Iterator::all'):
+            continue
+        te_ = b.branch(c, True)
+        if not te_:
+            continue
+        r = b.reach([e[1] for e in te_], cut_blocks=[head.bb])
+        if head.bb in b.reach([e[1] for e in te_]) and not any(x.bb in r for x in rec + inv + ivs):
+            rt.append(c)
+    if not lin:
+        ctx.check(not rt, rule, 'no-real-time-pruning', b,
+                  good='the SC search has no real-time pruning',
+                  bad='%s::serialize prunes branches with an extra test (%s): sequentially consistent '
+                      'histories can be rejected' % (short, [c.short for c in rt]))
+        return b
+    if len(rt) != 2:
+        raise AnchorMissing('%s::serialize: expected one real-time precedence test per case, found %d' % (short, len(rt)))
+    cases = {'in-flight': [c for c in rt if b.edges_dominate(e_true, c.bb, frm=[emp[0].bb])],
+             'completed': [c for c in rt if b.edges_dominate(e_false, c.bb, frm=[emp[0].bb])]}
+    ctx.check(len(cases['in-flight']) == 1 and len(cases['completed']) == 1, rule, 'real-time-test-in-both-cases', b,
+              good='both the in-flight and the completed case test real-time precedence before applying the operation',
+              bad='%s::serialize does not test real-time precedence in both cases (in-flight: %d, completed: %d): '
+                  'an operation can be ordered before a peer operation that had already returned when it was '
+                  'invoked' % (short, len(cases['in-flight']), len(cases['completed'])))
+    # each test precedes the application of its operation
+    for name, cs_, app in (('in-flight', cases['in-flight'], inv), ('completed', cases['completed'], ivs)):
+        for c in cs_:
+            ok = bool(app) and b.dominates(c.bb, app[0].bb)
+            ctx.check(ok, rule, 'real-time-before-apply@' + name, b,
+                      good='the %s case tests precedence before the operation is applied' % name,
+                      bad='%s::serialize applies the %s operation before/without the precedence test' % (short, name))
+
+    def predicate(c):
+        """(kind, bodies) of the predicate evaluated by test call c"""
+        if c.is_('Iterator::any'):
             cv = b.val(c.args[1])
             if cv.kind == 'agg' and cv.key[0] == 'closure':
-                cls.append(F.bodies[cv.key[1]])
-        if len(cls) != 2:
-            raise AnchorMissing('%s::serialize: the two real-time precedence tests (found %d)' % (short, len(cls)))
-        s0, s1 = closure_signature(cls[0]), closure_signature(cls[1])
-        ctx.check(s0 == s1, rule, 'real-time-tests-agree', b,
+                cl = F.bodies[cv.key[1]]
+                return 'any', c.callee, [cl] + F.closures_under(cl)
+            return 'any', c.callee, []
+        hb = F.bodies.get(c.callee)
+        if hb is not None:
+            return 'helper', c.callee, [hb] + F.closures_under(hb)
+        return 'other', c.callee, []
+    preds = [predicate(c) for c in rt]
+    # quantifier: existential over ALL peers - built on Iterator::any, never on a first-match combinator
+    for (kind, callee, bodies), c in zip(preds, rt):
+        quant_ok = kind == 'any'
+        firsts = []
+        if kind == 'helper':
+            hb = bodies[0]
+            # the combinator applied to the iteration over the pre-req map (a BTreeMap parameter)
+            its = [x for x in hb.calls_to('BTreeMap::iter', 'IntoIterator::into_iter', 'BTreeMap::keys', 'BTreeMap::values')
+                   if noref(hb.val(x.args[0])).kind == 'arg']
+            consumers = [x for x in hb.calls if x.args and x.args[0]['k'] in ('move', 'copy') and
+                         any(noref(hb.trace(hb.val(x.args[0]), ())) == V('call', it.bb) for it in its)]
+            firsts = [x for x in consumers if not x.is_('Iterator::any')]
+            quant_ok = bool(consumers) and not firsts
+        ctx.check(quant_ok, rule, 'real-time-test-quantifies-over-all-peers@%s' % c.span.split(':')[-1], b,
+                  good='the precedence test is an `any` over all peers recorded at invocation',
+                  bad='%s::serialize: the real-time precedence test (%s) is not an `any` over every peer recorded '
+                      'at invocation (first-match combinators: %s): a violation on a later peer is missed once an '
+                      'earlier peer gives a verdict' % (short, callee.split('::')[-1],
+                                                         [x.short.split('::')[-1] for x in firsts]), span=c.span)
+    # agreement of the two tests
+    if preds[0][0] == 'helper' and preds[1][0] == 'helper' and preds[0][1] == preds[1][1]:
+        ctx.ok(rule, 'real-time-tests-agree', b, 'both cases call the same helper %s' % preds[0][1])
+    else:
+        def sig_of(p_):
+            tot = Counter()
+            for y in p_[2]:
+                if y.kind == 'Closure':
+                    tot += closure_signature(y)
+            return tot
+        s0, s1 = sig_of(preds[0]), sig_of(preds[1])
+        ctx.check(s0 == s1 and bool(s0), rule, 'real-time-tests-agree', b,
                   good='the real-time precedence test is the same for in-flight and completed operations',
                   bad='%s::serialize: the real-time precedence test of the in-flight case and of the completed '
                       'case differ (%s vs %s): the two cases disagree about which peer operations must already '
                       'have been serialized' % (short, dict(s0 - s1), dict(s1 - s0)))
-        # each test prunes its branch
-        for k, c in enumerate(anyc):
-            te_ = b.branch(c, True)
-            r = b.reach([e[1] for e in te_], cut_blocks=[head.bb])
-            ok = bool(te_) and not any(x.bb in r for x in rec) and not any(x.bb in r for x in inv + ivs)
-            ctx.check(ok, rule, 'real-time-violation-prunes@%d' % k, b,
-                      good='a real-time violation prunes the branch before the operation is applied',
-                      bad='%s::serialize applies an operation although the real-time precedence test failed' % short)
     return b
